@@ -24,3 +24,8 @@ def make_exc(key, cls, *args):
     e = cls(*args)
     raised[key] = e
     return e
+
+
+def call0(f):
+    """Higher-order use of a function object from untracked code."""
+    return f()
